@@ -17,6 +17,7 @@ Theorem items_of_balanced Pc Ph l off ts ds : citems Pc Ph l off ts ds -> balanc
 Proof.
   induction 1 as [off|off s r ds Hs Hr IH
                  |off kw words cond o body c r ds1 ds2 Hkw Hwords Hcond Hnt Ho Hc Hb IHb Hr IHr
+                 |off kw5 colon5 r ds Hkw5 Hcolon5 Hr5 IHr5
                  |off o4 body4 c4 r ds1 ds2 Ho4 Hc4 Hb4 IHb4 Hr4 IHr4
                  |off pre1 o1 flat c1 post1 semi r ds Hpre1 Ho1 Hflat1 Hc1 Hpost1 Hsemi Hr IH
                  |off a tail o2 body2 c2 post2 semi2 r ds1 ds2 Hjs Hane Hop Hlast Htail Ho2 Hc2 Hpost2 Hsemi2 Hb2 IHb2 Hr2 IHr2
@@ -33,12 +34,15 @@ Proof.
     apply balanced_app.
     + destruct Hcond as [->|[Hg _]]; [apply balanced_nil|]. apply brace_free_balanced, groups_brace_free, Hg.
     + apply balanced_app; [|exact IHr]. apply balanced_block; assumption.
+  - change (kw5 :: colon5 :: r) with ([kw5] ++ [colon5] ++ r).
+    apply balanced_app; [apply nb_balanced, keyword_nb, Hkw5|].
+    apply balanced_app; [apply nb_balanced; eapply operator_nb; exact Hcolon5 | exact IHr5].
   - replace (o4 :: body4 ++ c4 :: r) with ((o4 :: body4 ++ [c4]) ++ r) by (norm_app; reflexivity).
     apply balanced_app; [apply balanced_block; assumption | exact IHr4].
   - replace (pre1 ++ o1 :: flat ++ c1 :: post1 ++ semi :: r) with (pre1 ++ (o1 :: flat ++ [c1]) ++ (post1 ++ [semi]) ++ r)
       by (norm_app; reflexivity).
     apply balanced_app; [apply brace_free_balanced, plains_brace_free, Hpre1|].
-    apply balanced_app; [apply balanced_block; try assumption; apply brace_free_balanced, plains_brace_free, Hflat1|].
+    apply balanced_app; [apply balanced_block; try assumption; apply brace_free_balanced, inner_brace_free, Hflat1|].
     apply balanced_app; [|exact IH].
     apply brace_free_balanced, simple_stmt_brace_free, stmt_tail; assumption.
   - replace (a ++ tail ++ o2 :: body2 ++ c2 :: post2 ++ semi2 :: r)
@@ -78,6 +82,7 @@ Theorem items_of_shape Pc Ph l off ts ds : citems Pc Ph l off ts ds ->
 Proof.
   induction 1 as [off|off s r ds Hs Hr IH
                  |off kw words cond o body c r ds1 ds2 Hkw Hwords Hcond Hnt Ho Hc Hb IHb Hr IHr
+                 |off kw5 colon5 r ds Hkw5 Hcolon5 Hr5 IHr5
                  |off o4 body4 c4 r ds1 ds2 Ho4 Hc4 Hb4 IHb4 Hr4 IHr4
                  |off pre1 o1 flat c1 post1 semi r ds Hpre1 Ho1 Hflat1 Hc1 Hpost1 Hsemi Hr IH
                  |off a tail o2 body2 c2 post2 semi2 r ds1 ds2 Hjs Hane Hop Hlast Htail Ho2 Hc2 Hpost2 Hsemi2 Hb2 IHb2 Hr2 IHr2
@@ -95,6 +100,8 @@ Proof.
     + replace (pre ++ (kw :: words ++ cond ++ o :: body ++ c :: r) ++ post)
         with ((pre ++ kw :: words ++ cond ++ o :: body ++ [c]) ++ r ++ post) by (norm_app; reflexivity).
       apply IHr; norm_len; lia.
+  - replace (pre ++ (kw5 :: colon5 :: r) ++ post) with ((pre ++ [kw5; colon5]) ++ r ++ post) by (norm_app; reflexivity).
+    apply IHr5; norm_len; lia.
   - apply Forall_app. split.
     + replace (pre ++ (o4 :: body4 ++ c4 :: r) ++ post) with ((pre ++ [o4]) ++ body4 ++ (c4 :: r ++ post)) by (norm_app; reflexivity).
       apply IHb4; norm_len; lia.
@@ -155,6 +162,7 @@ Theorem items_of_order Pc Ph l off ts ds : citems Pc Ph l off ts ds ->
 Proof.
   induction 1 as [off|off s r ds Hs Hr IH
                  |off kw words cond o body c r ds1 ds2 Hkw Hwords Hcond Hnt Ho Hc Hb IHb Hr IHr
+                 |off kw5 colon5 r ds Hkw5 Hcolon5 Hr5 IHr5
                  |off o4 body4 c4 r ds1 ds2 Ho4 Hc4 Hb4 IHb4 Hr4 IHr4
                  |off pre1 o1 flat c1 post1 semi r ds Hpre1 Ho1 Hflat1 Hc1 Hpost1 Hsemi Hr IH
                  |off a tail o2 body2 c2 post2 semi2 r ds1 ds2 Hjs Hane Hop Hlast Htail Ho2 Hc2 Hpost2 Hsemi2 Hb2 IHb2 Hr2 IHr2
@@ -169,6 +177,8 @@ Proof.
     + apply StronglySorted_app; [assumption | assumption|].
       intros x y Hx Hy. rewrite Forall_forall in B1, R1. apply B1 in Hx. apply R1 in Hy.
       unfold within_of in Hx, Hy. unfold ord, nested_in, after. lia.
+  - destruct IHr5 as [I1 I2]. split; [|exact I2].
+    eapply Forall_impl; [|exact I1]. intros d. apply within_of_weaken; norm_len; lia.
   - destruct IHb4 as [B1 B2]. destruct IHr4 as [R1 R2]. split.
     + apply Forall_app. split; (eapply Forall_impl; [|eassumption]); intros d; apply within_of_weaken; norm_len; lia.
     + apply StronglySorted_app; [assumption | assumption|].
@@ -209,6 +219,7 @@ Proof.
   intros Hl.
   induction 1 as [off|off s r ds Hs Hr IH
                  |off kw words cond o body c r ds1 ds2 Hkw Hwords Hcond Hnt Ho Hc Hb IHb Hr IHr
+                 |off kw5 colon5 r ds Hkw5 Hcolon5 Hr5 IHr5
                  |off o4 body4 c4 r ds1 ds2 Ho4 Hc4 Hb4 IHb4 Hr4 IHr4
                  |off pre1 o1 flat c1 post1 semi r ds Hpre1 Ho1 Hflat1 Hc1 Hpost1 Hsemi Hr IH
                  |off a tail o2 body2 c2 post2 semi2 r ds1 ds2 Hjs Hane Hop Hlast Htail Ho2 Hc2 Hpost2 Hsemi2 Hb2 IHb2 Hr2 IHr2
@@ -221,6 +232,7 @@ Proof.
     intros x y Hx Hy. destruct (items_of_order _ _ _ _ _ _ Hb) as [B1 _]. destruct (items_of_order _ _ _ _ _ _ Hr) as [R1 _].
     rewrite Forall_forall in B1, R1. apply B1 in Hx. apply R1 in Hy.
     unfold within_of in Hx, Hy. unfold after_ord, after. lia.
+  - exact IHr5.
   - apply StronglySorted_app; [assumption | assumption|].
     intros x y Hx Hy. destruct (items_of_order _ _ _ _ _ _ Hb4) as [B1 _]. destruct (items_of_order _ _ _ _ _ _ Hr4) as [R1 _].
     rewrite Forall_forall in B1, R1. apply B1 in Hx. apply R1 in Hy.
